@@ -51,6 +51,7 @@ def main():
         if os.path.isdir(sdir) and (not args or any(a in sdir for a in args)):
             jobs.append((sdir, props, tier))
     bad = 0
+    broken = 0
     with concurrent.futures.ThreadPoolExecutor(max_workers=4) as ex:
         for sdir, res, err in ex.map(run_one, jobs):
             name = os.path.basename(sdir)
@@ -58,14 +59,16 @@ def main():
                 print('%-8s ERROR %s' % (name, err))
                 bad += 1
             elif res:
-                bad += 1
-                print('%-8s ALARM  %s' % (name, ' '.join('%s:%d' % (p, rc) for p, (rc, _) in sorted(res.items()))))
+                alarm = any(rc == 1 for rc, _ in res.values())
+                bad += 1 if alarm else 0
+                broken += 0 if alarm else 1
+                print('%-8s %s  %s' % (name, 'ALARM ' if alarm else 'BROKEN', ' '.join('%s:%d' % (p, rc) for p, (rc, _) in sorted(res.items()))))
                 for p, (rc, lines) in sorted(res.items()):
                     for l in lines:
                         print('      %s: %s' % (p, l))
             else:
                 print('%-8s silent (%d checks)' % (name, len(props)))
-    print('%d refactorings, %d raised an alarm' % (len(jobs), bad))
+    print('%d refactorings, %d raised an alarm, %d could not be analysed (exit 2: an anchor the rules are filled from was renamed or removed)' % (len(jobs), bad, broken))
     return 1 if bad else 0
 
 
